@@ -2,6 +2,7 @@ package refcodec
 
 import (
 	"math"
+	"time"
 
 	"pgregory.net/rapid"
 )
@@ -177,6 +178,10 @@ func GenRecords(t *rapid.T, n int, base int64, magic int8, holes bool, big bool)
 	out := make([]Record, 0, n)
 	off := base
 	ts0 := rapid.Int64Range(1, 1<<41).Draw(t, "ts0")
+	if magic >= 1 && rapid.IntRange(0, 11).Draw(t, "farFuture") == 0 {
+		// timestamps are 64-bit milliseconds: years beyond 2262 do not fit a 64-bit nanosecond count
+		ts0 = rapid.Int64Range(9223372036855, 253402300799000).Draw(t, "tsFar")
+	}
 	for i := 0; i < n; i++ {
 		if holes && i > 0 && rapid.IntRange(0, 3).Draw(t, "hole") == 0 {
 			off += int64(rapid.IntRange(1, 3).Draw(t, "holeLen"))
@@ -247,4 +252,13 @@ func MakeBatchV2(recs []Record, codec int8) Batch {
 		}
 	}
 	return b
+}
+
+// MillisOf is the timestamp a time.Time stands for, in milliseconds since the epoch (also beyond the year 2262, where
+// UnixNano overflows).
+func MillisOf(t time.Time) int64 {
+	if t.IsZero() {
+		return t.UnixNano() / int64(time.Millisecond)
+	}
+	return t.UnixMilli()
 }
